@@ -94,7 +94,8 @@ type vObsTCP struct {
 	sync.Mutex
 	addr  string
 	ln    net.Listener
-	conns []*vAccepted
+	conns []*vAccepted // wire stage (goroutine based)
+	fds   []int        // pipe stage: accepted sockets, read synchronously
 }
 
 type vAccepted struct {
@@ -128,6 +129,9 @@ func (w *vWorld) close() {
 	}
 	for _, t := range w.tcp {
 		t.ln.Close()
+		for _, fd := range t.fds {
+			syscall.Close(fd)
+		}
 		t.Lock()
 		for _, a := range t.conns {
 			a.c.Close()
@@ -258,40 +262,43 @@ func (w *vWorld) collect() []string {
 			out = append(out, "U "+hx(u.addr)+" "+hxb(canonBranch(buf[:n])))
 		}
 	}
-	// TCP: wait until every dialed connection is accepted and no byte arrived for a while
-	if len(w.tcp) > 0 {
-		deadline := time.Now().Add(300 * time.Millisecond)
-		stable, last := 0, -1
-		for time.Now().Before(deadline) {
-			acc, tot := 0, 0
-			for _, t := range w.tcp {
-				t.Lock()
-				acc += len(t.conns)
-				for _, a := range t.conns {
-					tot += a.buf.Len()
+	// TCP: on loopback a connection is in the accept queue when connect() returns and the bytes are in
+	// the receive queue when write() returns, so a non-blocking accept + read after the barrier sees
+	// everything the event produced (no goroutines, no waiting).
+	for _, t := range w.tcp {
+		tl, ok := t.ln.(*net.TCPListener)
+		if !ok {
+			continue
+		}
+		rc, err := tl.SyscallConn()
+		if err != nil {
+			continue
+		}
+		for {
+			nfd := -1
+			rc.Control(func(fd uintptr) {
+				k, _, e := syscall.Accept4(int(fd), syscall.SOCK_NONBLOCK|syscall.SOCK_CLOEXEC)
+				if e == nil {
+					nfd = k
 				}
-				t.Unlock()
+			})
+			if nfd < 0 {
+				break
 			}
-			if acc >= w.dials && tot == last {
-				stable++
-				if stable >= 2 {
+			t.fds = append(t.fds, nfd)
+		}
+		for _, fd := range t.fds {
+			var acc []byte
+			for {
+				k, _, e := syscall.Recvfrom(fd, buf, syscall.MSG_DONTWAIT)
+				if e != nil || k <= 0 {
 					break
 				}
-			} else {
-				stable = 0
+				acc = append(acc, buf[:k]...)
 			}
-			last = tot
-			time.Sleep(200 * time.Microsecond)
-		}
-		for _, t := range w.tcp {
-			t.Lock()
-			for _, a := range t.conns {
-				if a.buf.Len() > a.off {
-					out = append(out, "T "+hx(t.addr)+" "+hxb(canonBranch(a.buf.Bytes()[a.off:])))
-					a.off = a.buf.Len()
-				}
+			if len(acc) > 0 {
+				out = append(out, "T "+hx(t.addr)+" "+hxb(canonBranch(acc)))
 			}
-			t.Unlock()
 		}
 	}
 	return out
@@ -338,34 +345,7 @@ func init() {
 			if err != nil {
 				return "bind-error " + strings.ReplaceAll(err.Error(), " ", "_")
 			}
-			t := &vObsTCP{addr: o[0], ln: ln}
-			w.tcp = append(w.tcp, t)
-			go func() {
-				for {
-					c, err := ln.Accept()
-					if err != nil {
-						return
-					}
-					ac := &vAccepted{c: c}
-					t.Lock()
-					t.conns = append(t.conns, ac)
-					t.Unlock()
-					go func() {
-						tmp := make([]byte, 65536)
-						for {
-							n, err := c.Read(tmp)
-							if n > 0 {
-								t.Lock()
-								ac.buf.Write(tmp[:n])
-								t.Unlock()
-							}
-							if err != nil {
-								return
-							}
-						}
-					}()
-				}
-			}()
+			w.tcp = append(w.tcp, &vObsTCP{addr: o[0], ln: ln})
 		}
 		vW = w
 		return "ok"
